@@ -317,7 +317,8 @@ impl Construction {
         for hops in [0u16, 1, 2, 100, 1000, 4000, 8000, 8179, 8180] {
             v.push(Chain { hops, names: 1 });
         }
-        v.push(Chain { hops: 8180, names: 4000 });
+        // 16.4 KB of chain + 3000 x 16 octets: just under the 65,535-octet TCP maximum
+        v.push(Chain { hops: 8180, names: 3000 });
         for n in [1u16, 2, 500, 40000] {
             v.push(Trailing(n));
         }
